@@ -63,6 +63,11 @@ class Eval:
                 return min(x, y) if name == "min" else max(x, y)
             if name == "saturating_sub" and len(args) == 2:
                 return max(self.key(args[0]) - self.key(args[1]), 0)
+            if name in ("Div", "Rem") and len(args) == 2:
+                x, y = self.key(args[0]), self.key(args[1])
+                if y <= 0 or x < 0:
+                    raise ErrPath()
+                return x // y if name == "Div" else x % y
             if name == "effective_k" and len(args) == 1:
                 # CKKSInfos::effective_k is a provided method: log_delta + log_budget (checked by the caller of this module)
                 return self.atom(("f", "log_delta", args)) + self.atom(("f", "log_budget", args))
